@@ -283,7 +283,7 @@ func (w *world) acLabel(l string, obs int64) {
 
 func (w *world) newAppender(k int) {
 	b := w.bulks[k]
-	t := &thread{name: fmt.Sprintf("app%d", k), kind: "app", idx: k}
+	t := &thread{name: fmt.Sprintf("app%d", k), kind: "app", idx: k, noPark: map[string]bool{"c07.pf.append.enter": true}}
 	w.s.spawn(t, func() any {
 		err := w.p.Append(b.docsB, b.metaB)
 		if err != nil {
